@@ -180,13 +180,18 @@ def _iter_req(s):
     return [s.maxiter >= 1]
 
 
-def _iter_post(s):
-    r = s.result
-    resid = _norm(vop('getitem', vop('Sub', s.f, vop('MatMult', s.A, r[0])), s.active_dofs))
-    fin = r[1] is not _sx.INF
-    if fin:
-        return [('returns-count-only-when-converged', And(s.res / s.res0 < s.tol, s.res == resid, r[1] == s.iterations, s.iterations >= 1))]
-    return [('inf-only-at-the-iteration-limit', s.iterations >= s.maxiter)]
+def _iter_post(x0_given):
+    def post(s):
+        r = s.result
+        resid = _norm(vop('getitem', vop('Sub', s.f, vop('MatMult', s.A, r[0])), s.active_dofs))
+        # the reduction is measured against the residual of the STARTING vector (x0 if given, else 0)
+        start = vop('Sub', s.f, vop('MatMult', s.A, s.x0)) if x0_given else s.f
+        ref = ('reference-is-the-starting-residual', s.res0 == _norm(vop('getitem', start, s.active_dofs)))
+        fin = r[1] is not _sx.INF
+        if fin:
+            return [('returns-count-only-when-converged', And(s.res / s.res0 < s.tol, s.res == resid, r[1] == s.iterations, s.iterations >= 1)), ref]
+        return [('inf-only-at-the-iteration-limit', s.iterations >= s.maxiter), ref]
+    return post
 
 
 def _iterative(x0_given, active_given):
@@ -196,7 +201,7 @@ def _iterative(x0_given, active_given):
                 'active_dofs': Vec() if active_given else Const(None), 'tol': Real(), 'maxiter': Int()},
         requires=_iter_req,
         loops={0: LoopSpec(r'while True', inv=lambda s: [('count', s.iterations >= 0)])},
-        ensures=_iter_post,
+        ensures=_iter_post(x0_given),
         options={'float_div_raises': False, 'no_return_ok': False},
         notes=['exits: (x, k) only on the path where res/res0 < tol was evaluated true for that x; (x, inf) only with iterations >= maxiter'],
     )
